@@ -517,7 +517,7 @@ func c01r4(p *Program, r *Report) {
 	if fi == nil {
 		return
 	}
-	g := p.GraphOf(fi)
+	g := p.GraphOfInl(fi)
 	info := g.Info
 	ef := g.Events(connEvents(p, g))
 	facts := g.GuardFacts()
@@ -530,94 +530,149 @@ func c01r4(p *Program, r *Report) {
 		}
 		return true
 	})
-	nAb := 0
-	ast.Inspect(fi.Decl.Body, func(n ast.Node) bool {
-		sel, ok := n.(*ast.SelectStmt)
-		if !ok {
+	// isTheCall: e (in unit u of exec) denotes exec's call object: the variable itself, or the parameter of a helper
+	// it was handed to
+	var isTheCall func(u *FuncInfo, e ast.Expr) bool
+	isTheCall = func(u *FuncInfo, e ast.Expr) bool {
+		if isIdentOf(info, e, callObj) {
 			return true
 		}
-		hasResp := false
-		for _, cc := range commClauses(sel) {
-			if ch := recvChan(cc.Comm); ch != nil && p.isField(info, ch, "callReq", "resp") {
-				hasResp = true
-			}
+		id, isId := ast.Unparen(e).(*ast.Ident)
+		if !isId || u == fi || u.Obj == nil {
+			return false
 		}
-		if !hasResp {
-			return true
-		}
-		for _, cc := range commClauses(sel) {
-			ch := recvChan(cc.Comm)
-			if ch == nil || p.isField(info, ch, "callReq", "resp") {
+		// a parameter of a helper: every call site inside exec's units passes the call
+		sig := u.Obj.Type().(*types.Signature)
+		for i := 0; i < sig.Params().Len(); i++ {
+			if sig.Params().At(i) != info.Uses[id] || !neverAssigned(info, u.Decl.Body, info.Uses[id]) {
 				continue
 			}
-			nAb++
-			name := "(*Conn).exec abandonment case <-" + exprStr(ch)
-			bad := ""
-			for _, st := range cc.Body {
-				ast.Inspect(st, func(m ast.Node) bool {
-					c, ok := m.(*ast.CallExpr)
-					if !ok {
-						return true
-					}
-					cn := calleeName(info, c)
-					if cn == "(*Conn).releaseStream" || cn == "streams.(*IDGenerator).Clear" {
-						bad = "releases the stream id although the response may still arrive: the id can be handed to a later request which then receives this request's late response"
-					}
-					if cn == "builtin.delete" && len(c.Args) == 2 && p.isField(info, c.Args[0], "Conn", "calls") {
-						bad = "removes the call from c.calls: the late response finds no handler while the id stays reserved forever, or a re-registration gets it"
-					}
-					for _, a := range c.Args {
-						if callObj != nil && isIdentOf(info, a, callObj) && cn != "builtin.close" {
-							bad = "passes the abandoned call to " + cn + " (only close(call.timeout) is allowed on abandonment)"
+			nsite, all := 0, true
+			for _, caller := range g.Units() {
+				for _, c := range callsIn(caller.Decl.Body) {
+					if fn := calleeOf(info, c); fn != nil && p.FuncOf(fn) == u && i < len(c.Args) {
+						nsite++
+						if !isTheCall(caller, c.Args[i]) {
+							all = false
 						}
 					}
-					return true
-				})
+				}
 			}
-			r.Check(bad == "", cc, name, "only closes call.timeout; id stays reserved until the response or connection end", "this case "+bad)
+			return nsite > 0 && all
 		}
 		return false
-	})
+	}
+	nAb := 0
+	for _, u := range g.Units() {
+		u := u
+		ast.Inspect(u.Decl.Body, func(n ast.Node) bool {
+			sel, ok := n.(*ast.SelectStmt)
+			if !ok {
+				return true
+			}
+			hasResp := false
+			for _, cc := range commClauses(sel) {
+				if ch := recvChan(cc.Comm); ch != nil && p.isField(info, ch, "callReq", "resp") {
+					hasResp = true
+				}
+			}
+			if !hasResp {
+				return true
+			}
+			for _, cc := range commClauses(sel) {
+				ch := recvChan(cc.Comm)
+				if ch == nil || p.isField(info, ch, "callReq", "resp") {
+					continue
+				}
+				nAb++
+				name := "(*Conn).exec abandonment case <-" + exprStr(ch)
+				bad := ""
+				for _, st := range cc.Body {
+					ast.Inspect(st, func(m ast.Node) bool {
+						c, ok := m.(*ast.CallExpr)
+						if !ok {
+							return true
+						}
+						cn := calleeName(info, c)
+						if cn == "(*Conn).releaseStream" || cn == "streams.(*IDGenerator).Clear" {
+							bad = "releases the stream id although the response may still arrive: the id can be handed to a later request which then receives this request's late response"
+						}
+						if cn == "builtin.delete" && len(c.Args) == 2 && p.isField(info, c.Args[0], "Conn", "calls") {
+							bad = "removes the call from c.calls: the late response finds no handler while the id stays reserved forever, or a re-registration gets it"
+						}
+						for _, a := range c.Args {
+							if callObj != nil && isTheCall(u, a) && cn != "builtin.close" {
+								bad = "passes the abandoned call to " + cn + " (only close(call.timeout) is allowed on abandonment)"
+							}
+						}
+						return true
+					})
+				}
+				r.Check(bad == "", cc, name, "only closes call.timeout; id stays reserved until the response or connection end", "this case "+bad)
+			}
+			return false
+		})
+	}
 	if nAb < 3 {
 		r.Unresolved("exec: fewer than 3 abandonment cases in the wait select (%d)", nAb)
 	}
-	// release sites in exec: classified
-	ast.Inspect(fi.Decl.Body, func(n ast.Node) bool {
-		c, ok := n.(*ast.CallExpr)
-		if !ok || !isCallTo(info, c, "(*Conn).releaseStream") {
-			return true
+	// release sites in exec (and the helpers it was split into): classified in the context of exec
+	for _, u := range g.Units() {
+		u := u
+		if u.Name == "(*Conn).releaseStream" {
+			continue
 		}
-		at := ast.Node(c)
-		if d, ok := p.Parent(c).(*ast.DeferStmt); ok {
-			at = d
-		}
-		s, ok1 := ef.Sol.Before(at)
-		f, _ := facts.Before(at)
-		if !ok1 {
-			return true
-		}
-		class := ""
-		switch {
-		case s.Must["recvResp"]:
-			class = "response received"
-		case s.Must["buildErr"]:
-			class = "frame could not be built (nothing written)"
-		case s.Must["writeErr"]:
-			// must be the not-started case: n == 0 known
-			nz := false
-			for k, v := range f.m {
-				if v && (strings.HasSuffix(k, " == 0") || strings.HasPrefix(k, "0 == ")) {
-					nz = true
+		ast.Inspect(u.Decl.Body, func(n ast.Node) bool {
+			c, ok := n.(*ast.CallExpr)
+			if !ok || !isCallTo(info, c, "(*Conn).releaseStream") {
+				return true
+			}
+			at := ast.Node(c)
+			if d, ok := p.Parent(c).(*ast.DeferStmt); ok {
+				at = d
+			}
+			// one verdict per context in which the site is reached (a helper called from several places)
+			ss := ef.Sol.BeforeEach(at)
+			fs := facts.BeforeEach(at)
+			if len(ss) == 0 || len(fs) != len(ss) {
+				return true
+			}
+			class := ""
+			for ci, s := range ss {
+				f := fs[ci]
+				cls := ""
+				switch {
+				case s.Must["recvResp"]:
+					cls = "response received"
+				case s.Must["buildErr"]:
+					cls = "frame could not be built (nothing written)"
+				case s.Must["writeErr"]:
+					// must be the not-started case: n == 0 known
+					nz := false
+					for k, v := range f.m {
+						if v && (strings.HasSuffix(k, " == 0") || strings.HasPrefix(k, "0 == ")) {
+							nz = true
+						}
+					}
+					if nz {
+						cls = "write not started (n == 0)"
+					}
+				}
+				if cls == "" {
+					class = ""
+					break
+				}
+				if class == "" {
+					class = cls
+				} else if !strings.Contains(class, cls) {
+					class += " / " + cls
 				}
 			}
-			if nz {
-				class = "write not started (n == 0)"
-			}
-		}
-		r.Check(class != "" && len(c.Args) == 1 && isIdentOf(info, c.Args[0], callObj), c, "(*Conn).exec releaseStream site",
-			"release justified: "+class, "the stream id is released on a path where the request may be on the wire and unanswered (not after a response, a build error, or a write that did not start)")
-		return true
-	})
+			r.Check(class != "" && len(c.Args) == 1 && isTheCall(u, c.Args[0]), c, "(*Conn).exec releaseStream site",
+				"release justified: "+class, "the stream id is released on a path where the request may be on the wire and unanswered (not after a response, a build error, or a write that did not start)")
+			return true
+		})
+	}
 	// recv: release only in the case <-call.timeout, after the body was read
 	if rf := r.NeedFunc("(*Conn).recv"); rf != nil {
 		rinfo := rf.Pkg.TypesInfo
